@@ -1,6 +1,8 @@
 package lib
 
 import (
+	"time"
+	"verif/harness/vclock"
 	"bytes"
 	"fmt"
 	"runtime/debug"
@@ -88,4 +90,11 @@ func RecordsPayload(m *entities.Message) ([][][]byte, error) {
 		out = append(out, r)
 	}
 	return out, nil
+}
+
+// ClockAdapter makes a vclock.Clock usable as the collector's clock.
+type ClockAdapter struct{ *vclock.Clock }
+
+func (a ClockAdapter) AfterFunc(d time.Duration, f func()) collector.VerifTimer {
+	return a.Clock.AfterFuncTimer(d, f)
 }
